@@ -9,7 +9,7 @@ ROOT = os.path.dirname(os.path.dirname(os.path.abspath(__file__)))
 CHECKS = {
     "C06": ("§6 C06",
             "Lean 4 theorems over a hand-written model of Standardiser (exact extended rationals) + differential correspondence with the Python class + independent property oracle",
-            "Every clause of C06 is a Lean theorem about Model/Standardiser.lean, for all accepted parameters, supplies (the [minimum, maximum] clause also for infinite supplies, where inf - inf is a bound that never applies), finite demands and op histories; the model is tied to standardiser.py on every run by executing generated and grid op programs on both and comparing every observation exactly.",
+            "Every clause of C06 is a Lean theorem about Model/Standardiser.lean (whose `clamp` is proved equal to the Lean translation of the source's `_clamp`, regenerated on every run), for all accepted parameters, supplies (the [minimum, maximum] clause also for infinite supplies, where inf - inf is a bound that never applies), finite demands and op histories; the model is tied to standardiser.py on every run by executing generated and grid op programs on both and comparing every observation exactly.",
             "Trusted: Lean kernel + {propext, Classical.choice, Quot.sound}; the model (tied by sampling correspondence only); CPython arithmetic on int/Fraction/dyadic floats; IEEE rounding not modelled."),
     "C07": ("§6 C07",
             "Lean 4 theorems over a hand-written model of Uniform/WeightedComposite (exact rationals, arbitrary child lists) + differential correspondence + independent oracle (exact and float-tolerance streams)",
